@@ -190,6 +190,7 @@ func main() {
 	}
 
 	var probeResult map[string]interface{}
+	var direct []*result // failures that involve no timing: reported as they are, whatever a re-run says
 	final := map[int]*result{}
 	softRounds := map[int]int{} // rounds in which the history was late by more than the guard (but within the margin)
 	const maxRounds = 5
@@ -212,6 +213,9 @@ func main() {
 			for i, o := range obs {
 				p := todo[lo+i]
 				ps := evaluate(rd, p, o)
+				for _, d := range o.Direct {
+					direct = append(direct, &result{p, o, []problem{d}, r, rd.unit})
+				}
 				final[p.ID] = &result{p, o, ps, r, rd.unit}
 				for _, pr := range ps {
 					if pr.Kind == "soft" {
@@ -324,6 +328,12 @@ func main() {
 				}
 			}
 		}
+	}
+	for _, res := range direct {
+		pr := res.probs[0]
+		rep.Add(hx.Finding{Kind: pr.Kind, Property: "C16", Signature: res.p.Part + ":" + pr.Sig, What: pr.What,
+			Replay: map[string]interface{}{"harness": "deadline", "seed": *seed, "n": *n, "plan": res.p, "round": res.round,
+				"note": "race in the library between the dialing goroutine and the poller; the same plan may pass on another run"}})
 	}
 	rep.Extra["max_observed_fire_latency_us"] = maxLat
 	// two requests in flight on one ClientConn: what the code does is reported, not judged (C16 does not say which
